@@ -792,6 +792,10 @@ func c08Gen(rng *rand.Rand, tier string, w *bufio.Writer) {
 						tt = strconv.Itoa(2 + rng.Intn(8))
 					}
 				}
+				if idx != "key" && rng.Intn(10) == 0 {
+					// bounds int64 nanoseconds cannot hold (years 0001 / 9999): both routes must treat them alike
+					ft, tt = []string{"-", "-62135596800", "253402300799"}[rng.Intn(3)], []string{"253402300799", "-62135596800", "-"}[rng.Intn(3)]
+				}
 				max := 0
 				if rng.Intn(6) == 0 {
 					max = 1 + rng.Intn(3)
